@@ -188,7 +188,7 @@ class Ctx(object):
         shape = tuple(shape) if isinstance(shape, (tuple, list)) else (int(shape),)
         self._declare(name, kind='array', shape=list(shape), dtype=str(dt), garbage=garbage)
         if self.sym:
-            return sym_array(name, shape, dt, order)
+            return sym_array(name, shape, dt, order, garbage=garbage)
         n = int(np.prod(shape)) if shape else 1
         vals = self.values.get(name)
         if vals is None:
@@ -284,12 +284,44 @@ class Ctx(object):
             self.records.append((label, lt))
             goals = [T.not_(T.eq(u, v)) for u, v in zip(lt, rt) if u is not v]
             self._oblige(label, goals, lt, rt, tol)
+            self._taint_check(label, lt)
         else:
             av = _to_float_array(a)
             bv = _to_float_array(b)
             self.records.append((label, av))
             if not _close(av, bv, self.S.conc_rtol if tol is None else max(tol, self.S.conc_rtol)):
                 self.failures.append((label, 'observed %s expected %s' % (_short(av), _short(bv))))
+
+    def _taint_check(self, label, lt):
+        """'The previous contents of the output never influence the result': no symbol that stands for
+        previous contents of a harness-declared output may occur in the result terms.  (0 * garbage is
+        deliberately not folded to 0 by the term layer: in floats it is NaN for non-finite contents.)
+        The witness is replayed with NaN-filled previous contents."""
+        if not any(t.g for t in lt):
+            return
+        names = sorted({n for n, _ in T.free_vars([t for t in lt if t.g])})
+        gnames = []
+        for n, info in self.inputs.items():
+            if info.get('garbage'):
+                vs = {vn for vn, _ in self._var_names(n, info)}
+                if vs & set(names):
+                    gnames.append(n)
+        if not gnames:
+            return
+        self.stats['obligations'] += 1
+        s = ENG.fresh_solver(self.S.obligation_timeout_ms)
+        r = str(s.check())
+        if r != 'sat':
+            self.stats['inconclusive'] += 1
+            self.inconclusive.append('%s: no witness for taint candidate (%s)' % (label, r))
+            return
+        values, funcs = self._values_from_model(self._nice(s, s.model()))
+        for n in gnames:
+            values[n] = None          # concrete mode fills NaN
+        self.candidates.append(Candidate(label + '|previous-contents', 'taint', values,
+                                         'result terms mention the previous contents of %s (multiplied by 0 / '
+                                         'subtracted from itself: NaN/inf would propagate)' % ', '.join(gnames),
+                                         funcs))
 
     def eq_any(self, label, lhs, refs):
         """lhs equals (entry-wise, as a whole) at least one of the reference results."""
